@@ -565,7 +565,20 @@ func (e *Engine) keepOnHavoc(key string) bool {
 		if i := strings.Index(name, "#"); i >= 0 {
 			name = name[:i]
 		}
-		return e.globalsRO[name]
+		if e.globalsRO[name] {
+			return true
+		}
+		// leaf components: G:pkg.Name.tag, .val, .arr ...
+		for {
+			i := strings.LastIndex(name, ".")
+			if i < 0 {
+				return false
+			}
+			name = name[:i]
+			if e.globalsRO[name] {
+				return true
+			}
+		}
 	}
 	return false
 }
